@@ -528,12 +528,13 @@ def emsg(version=0, timescale=1000, ptime=5, duration=6, ident=7, scheme=b"urn:x
     return full("emsg", version, 0, items + [Raw(data)])
 
 
-def data_box(dtype, payload):
-    return Box("data", [F(4, dtype, "data_type"), F(4, 0), Raw(payload)])
+def data_box(dtype, payload, locale=0):
+    # type indicator, then the locale indicator (country + language; 0 = default), then the value
+    return Box("data", [F(4, dtype, "data_type"), F(4, locale), Raw(payload)])
 
 
-def ilst_item(code, dtype, payload, extra=()):
-    return Box(code, list(extra) + [data_box(dtype, payload)])
+def ilst_item(code, dtype, payload, extra=(), locale=0):
+    return Box(code, list(extra) + [data_box(dtype, payload, locale)])
 
 
 TITLE, YEAR, POSTER, SUMMARY = b"\xa9nam", b"\xa9day", b"covr", b"desc"
@@ -554,7 +555,8 @@ def udta(children):
 
 
 # ---------------------------------------------------------------- fragmented movies
-def build_fragmented(tracks, fragments, movie_ts=1000, trex_dur=0, extra_between=(), large_moof=False, trex_durs=None, moof_transform=None, last_mdat_to_eof=False):
+def build_fragmented(tracks, fragments, movie_ts=1000, trex_dur=0, extra_between=(), large_moof=False, trex_durs=None, moof_transform=None, last_mdat_to_eof=False,
+                     mehd_dur=None, mvex_order=None):
     """tracks: [{"id", "kind", "ts"}]; fragments: [[traf, ...], ...] with
          traf = {"track_id", "base": "moof" | "explicit" | "explicit_end", "tfhd_dur": None|int, "tfdt": None|int, "tfdt_v": 0|1,
                  "durations": None|[..], "sizes": [..], "cts": None|[..], "with_offset": bool, "trun": bool}
@@ -569,6 +571,11 @@ def build_fragmented(tracks, fragments, movie_ts=1000, trex_dur=0, extra_between
         mv = mvex([trex(t["id"], 1, trex_durs[t["id"]]) for t in tracks])
     else:
         mv = mvex([trex(tracks[-1]["id"], 1, trex_dur)])
+    if mehd_dur is not None:
+        mv.items = [mehd(mehd_dur)] + list(mv.items)
+    if mvex_order is not None:
+        # mvex_order(n) -> a permutation of range(n): the children of mvex (mehd, one trex per track) in another order
+        mv.items = [mv.items[i] for i in mvex_order(len(mv.items))]
     r, _, nodes = build_movie(trs, "moov_first", movie_ts=movie_ts, mvex=mv)
     # init segment = ftyp + moov (drop the empty mdat)
     init = bytes(render(nodes[:-1]).data)
